@@ -251,6 +251,10 @@ static void ref_walk(int want_section, struct ref_res *r)
 	}
 }
 
+#if FN == 5
+static cfg_opt_t sub_decl[] = { CFG_INT("a", 7, CFGF_NONE), CFG_STR("z", "q", CFGF_NONE), CFG_END() };
+#endif
+
 static cfg_opt_t *mk_root(void)
 {
 	cfg_opt_t *o = alloc_opts(4);
@@ -284,8 +288,15 @@ static cfg_opt_t *mk_root(void)
 	alloc_values(&o[3], 2);
 	sec_t[0] = o[3].values[0]->section = mk_section2("t", "p", CTXF);
 	sec_t[1] = o[3].values[1]->section = mk_section2("t", "q", CTXF);
+#if FN == 5
+	o[1].subopts = o[2].subopts = o[3].subopts = sub_decl; /* the declarations the instances were copied from */
+#endif
 	return o;
 }
+
+#if FN == 5
+static void pfn(cfg_opt_t *opt, unsigned int index, FILE *fp) { (void)opt; (void)index; (void)fp; }
+#endif
 
 int main(void)
 {
@@ -396,6 +407,26 @@ int main(void)
 			V_ASSERT(cfg_opt_getnint(&ropts[0], 0) == 3 && cfg_opt_getnint(&sec_s->opts[0], 0) == 7 && cfg_opt_getnint(&sec_m[0]->opts[0], 0) == 7 && cfg_opt_getnint(&sec_m[1]->opts[0], 0) == 7 &&
 					 cfg_opt_getnint(&sec_t[0]->opts[0], 0) == 7 && cfg_opt_getnint(&sec_t[1]->opts[0], 0) == 7,
 				 "[C11] a by-path setter on a path that does not resolve changes nothing");
+			V_WITNESS("not found");
+		}
+	}
+#elif FN == 5
+	{
+		/* C19: the by-name registration of a print callback lands on exactly the option the path addresses */
+		cfg_print_func_t oldpf;
+		int n_set;
+
+		ref_walk(0, &rr);
+		oldpf = cfg_set_print_func(&root, vin_path, pfn);
+#define PF2(c) (((c)->opts[0].pf != NULL) + ((c)->opts[1].pf != NULL))
+		n_set = (ropts[0].pf != NULL) + (ropts[1].pf != NULL) + (ropts[2].pf != NULL) + (ropts[3].pf != NULL) + PF2(sec_s) + (sec_s->opts[2].pf != NULL) + PF2(sec_n) + PF2(sec_m[0]) + PF2(sec_m[1]) + PF2(sec_t[0]) + PF2(sec_t[1]) +
+			(sub_decl[0].pf != NULL) + (sub_decl[1].pf != NULL);
+		V_ASSERT(oldpf == NULL, "[C19] there was no print callback before");
+		if (rr.ok == 1) {
+			V_ASSERT(rr.opt->pf == pfn && n_set == 1, "[C19] a print callback registered by name is installed on exactly the option the name or path addresses (first instance of a multi section), not on the declarations");
+			V_WITNESS("resolved");
+		} else if (rr.ok == 0) {
+			V_ASSERT(n_set == 0, "[C19] a print callback registered by a name that does not resolve is installed nowhere");
 			V_WITNESS("not found");
 		}
 	}
